@@ -231,7 +231,7 @@ theorem close_writes_epilogue {r : AReq} {cs : CloseSt} {status : ExitStatus} {a
         · cases hdec; rfl
         · cases hdec
     · cases hp
-    · rcases hf with hf | hf <;> cases hf
+    · rcases hf with ⟨e, _, hf⟩ | hf <;> cases hf
 
 /-- (v) With a `StreamWriter` still alive, `close` fails with the `writers` error as soon as it is past
 the record boundary; it never builds or writes an epilogue, and never returns `Ok`.  The transport
@@ -307,9 +307,9 @@ theorem handler_step (c : Conn) (r : AReq) (h : HState) (hp : c.phase = .handler
         .next { c with phase := .closing r .start st (h.writers.filter Option.isSome).length,
                        env := e.ev s!"HE(ok:{showStatus st})" }
       | (r, h, e, .done (.error x)) =>
-        if x = .connectionAborted then
+        if x = .abortRequest then
           .next { c with phase := .closing r .start ExitStatus.abort (h.writers.filter Option.isSome).length,
-                         env := e.ev "HE(err:aborted)" }
+                         env := e.ev "HE(err:abort-request)" }
         else .halt { c with phase := .finished, env := e.ev s!"HE(err:{showIo x})" } .finished := by
   obtain ⟨phase, env, scripts, stop⟩ := c
   simp only at hp; subst hp
@@ -320,7 +320,7 @@ theorem handler_step (c : Conn) (r : AReq) (h : HState) (hp : c.phase = .handler
   | done res =>
     cases res with
     | ok st => rfl
-    | error x => by_cases hx : x = .connectionAborted <;> simp [hx]
+    | error x => by_cases hx : x = .abortRequest <;> simp [hx]
   | _ => rfl
 
 /-- A handler `Err` other than `ConnectionAborted` finishes the connection at once: the phase never
@@ -328,7 +328,7 @@ becomes `closing`, and this transition writes nothing (only the `HE(` event is a
 theorem handler_error_finishes (c : Conn) (r : AReq) (h : HState) (r' : AReq) (h' : HState) (e : Env)
     (x : IoErr) (hp : c.phase = .handler r h)
     (hh : handlerPoll (handlerFuel c.env) r h c.env = (r', h', e, .done (.error x)))
-    (hx : x ≠ .connectionAborted) :
+    (hx : x ≠ .abortRequest) :
     stepConn c = .halt { c with phase := .finished, env := e.ev s!"HE(err:{showIo x})" } .finished ∧
     (e.ev s!"HE(err:{showIo x})").tr.wlog = e.tr.wlog := by
   rw [handler_step c r h hp, hh]
